@@ -192,7 +192,9 @@ def judge_optimal_qp(D, sol, v, feastol, abstol, reltol, maxiters):
     pc, dc = r["pcost"], r["dcost"]
     # gap criterion (three documented alternatives)
     g = r["gap"]
-    ok = g <= abstol + R * r["gap_scale"]
+    # without inequality constraints there are no s, z: the gap is identically 0 and there is nothing to be judged
+    # (a nonpositive abstol, which only switches the absolute criterion off, must not turn this into a failure)
+    ok = g <= abstol + R * r["gap_scale"] or D.N == 0
     if not ok and pc < 0 and g / -pc <= reltol * (1 + 1e-6) + R * r["gap_scale"] / -pc:
         ok = True
     if not ok and dc > 0 and g / dc <= reltol * (1 + 1e-6) + R * r["gap_scale"] / dc:
